@@ -283,6 +283,7 @@ def _run_instance(case, ctx):
                 return False
             return state
 
+        kept_exceptions = []
         # ---- raised faults: every statement position x 3 kinds, in this process
         for k in (range(1, n_steps + 1) if case.get("raised", True) else ()):
             for kind in RAISE_KINDS:
@@ -294,6 +295,7 @@ def _run_instance(case, ctx):
                     outcome = "returned"
                 except Exception as exc:
                     outcome = type(exc).__name__
+                    kept_exceptions.append(exc)  # the caller holds on to the error (a log, pytest's excinfo, an interactive session)
                 fired = sqlfault.PLAN.fired
                 sqlfault.PLAN.reset()
                 runs += 1
@@ -327,6 +329,7 @@ def _run_instance(case, ctx):
                     elif after != full:
                         ctx.violation("%s/%s/repeat-incomplete" % (target["fn"], kind), "the repeated operation does not yield the full effect", where="%s@%d" % (kind, k), diff=dbtools.diff_dump(full, after))
                 _registry_reset(reg)
+                del kept_exceptions[:-3]
         # ---- process death: before / after every statement, around the commit (child processes)
         if case["death"] == "all":
             positions = list(range(1, n_steps + 1))
